@@ -21,6 +21,7 @@ EVAL = lambda q, t, **kw: dict({"name": "eval", "quick_n": q, "thorough_n": t}, 
 VM = lambda q, t, **kw: dict({"name": "vm", "quick_n": q, "thorough_n": t}, **kw)
 
 CHECKS["C01"] = {
+    "gen_ties": ["Builtins"],
     "level": "proof",
     "lean_targets": ["Yae.Props.C01"],
     "streams": [
@@ -33,6 +34,7 @@ CHECKS["C01"] = {
 }
 
 CHECKS["C02"] = {
+    "gen_ties": ["Builtins", "Vm"],
     "level": "proof",
     "lean_targets": ["Yae.Props.C02", "Yae.Props.C11"],
     "streams": [
@@ -45,6 +47,7 @@ CHECKS["C02"] = {
 }
 
 CHECKS["C03"] = {
+    "gen_ties": ["Builtins", "Vm"],
     "level": "proof",
     "lean_targets": ["Yae.Props.C03", "Yae.Props.C02"],
     "streams": [
@@ -56,6 +59,7 @@ CHECKS["C03"] = {
 }
 
 CHECKS["C04"] = {
+    "gen_ties": ["Builtins", "Vm"],
     "level": "proof",
     "lean_targets": ["Yae.Props.C04"],
     "streams": [
@@ -69,6 +73,7 @@ CHECKS["C04"] = {
 }
 
 CHECKS["C05"] = {
+    "gen_ties": ["Builtins"],
     "level": "proof",
     "lean_targets": ["Yae.Props.C05", "Yae.Props.C05b", "Yae.Props.C17"],
     "streams": [
@@ -80,6 +85,7 @@ CHECKS["C05"] = {
 }
 
 CHECKS["C06"] = {
+    "gen_ties": ["Builtins", "Vm"],
     "level": "proof",
     "lean_targets": ["Yae.Props.C06", "Yae.Props.C03"],
     "streams": [
@@ -91,6 +97,7 @@ CHECKS["C06"] = {
 }
 
 CHECKS["C07"] = {
+    "gen_ties": ["Builtins"],
     "level": "proof",
     "lean_targets": ["Yae.Props.C07"],
     "streams": [
@@ -102,6 +109,7 @@ CHECKS["C07"] = {
 }
 
 CHECKS["C08"] = {
+    "gen_ties": ["Parser"],
     "level": "other",
     "lean_targets": ["Yae.Props.C08"],
     "streams": [
@@ -113,6 +121,7 @@ CHECKS["C08"] = {
 }
 
 CHECKS["C09"] = {
+    "gen_ties": ["Parser"],
     "level": "proof",
     "lean_targets": ["Yae.Props.C09"],
     "streams": [
@@ -124,6 +133,7 @@ CHECKS["C09"] = {
 }
 
 CHECKS["C10"] = {
+    "gen_ties": ["Builtins", "Parser"],
     "level": "proof",
     "lean_targets": ["Yae.Props.C10"],
     "streams": [
@@ -136,6 +146,7 @@ CHECKS["C10"] = {
 }
 
 CHECKS["C11"] = {
+    "gen_ties": ["Builtins", "Vm"],
     "level": "proof",
     "lean_targets": ["Yae.Props.C11", "Yae.Props.C11b", "Yae.Props.C03"],
     "streams": [
@@ -146,6 +157,7 @@ CHECKS["C11"] = {
 }
 
 CHECKS["C12"] = {
+    "gen_ties": ["Builtins", "Vm", "Parser", "Conv"],
     "level": "other",
     "lean_targets": ["Yae.Props.C12"],
     "streams": [
@@ -159,6 +171,7 @@ CHECKS["C12"] = {
 }
 
 CHECKS["C13"] = {
+    "gen_ties": ["Builtins", "Vm"],
     "level": "proof",
     "lean_targets": ["Yae.Props.C13", "Yae.Props.C06"],
     "streams": [
@@ -171,6 +184,7 @@ CHECKS["C13"] = {
 }
 
 CHECKS["C14"] = {
+    "gen_ties": ["Builtins"],
     "level": "other",
     "lean_targets": ["Yae.Props.C14"],
     "streams": [
@@ -181,6 +195,7 @@ CHECKS["C14"] = {
 }
 
 CHECKS["C15"] = {
+    "gen_ties": ["Conv"],
     "level": "proof",
     "lean_targets": ["Yae.Props.C15"],
     "streams": [
@@ -193,6 +208,7 @@ CHECKS["C15"] = {
 }
 
 CHECKS["C16"] = {
+    "gen_ties": ["Builtins", "Conv"],
     "level": "proof",
     "lean_targets": ["Yae.Props.C16", "Yae.Props.C02"],
     "streams": [
@@ -204,6 +220,7 @@ CHECKS["C16"] = {
 }
 
 CHECKS["C17"] = {
+    "gen_ties": [],
     "level": "proof",
     "lean_targets": ["Yae.Props.C17"],
     "streams": [
@@ -214,6 +231,7 @@ CHECKS["C17"] = {
 }
 
 CHECKS["C18"] = {
+    "gen_ties": ["Builtins"],
     "level": "proof",
     "lean_targets": ["Yae.Props.C18"],
     "streams": [
@@ -225,6 +243,7 @@ CHECKS["C18"] = {
 }
 
 CHECKS["C19"] = {
+    "gen_ties": ["Builtins", "Parser"],
     "level": "proof",
     "lean_targets": ["Yae.Props.C19"],
     "streams": [
@@ -236,6 +255,7 @@ CHECKS["C19"] = {
 }
 
 CHECKS["C20"] = {
+    "gen_ties": ["Builtins", "Sql"],
     "level": "other",
     "lean_targets": ["Yae.Props.C20"],
     "streams": [
